@@ -31,15 +31,15 @@ ASSUMPTIONS = [
 ]
 
 
-def _ops_for(rng, k, lens, n_steps, writable):
+def _ops_for(rng, k, lens, n_steps, writable, lw=4):
     """mostly-valid op stream; returns list of op tuples"""
     ops = []
     excl = False
     nsh = 0
     cur = list(lens)
-    orig = DISC + sum(4 + x for x in lens)
+    orig = DISC + sum(lw + x for x in lens)
     for _ in range(n_steps):
-        total = DISC + sum(4 + x for x in cur)
+        total = DISC + sum(lw + x for x in cur)
         room = orig + MAX_INC - total
         r = rng.below(100)
         if excl:
@@ -103,8 +103,9 @@ def _ops_for(rng, k, lens, n_steps, writable):
     return ops
 
 
-def _encode(writable, lens, ops):
-    ints = [1 if writable else 0, len(lens)] + list(lens)
+def _encode(writable, lens, ops, prefixless=False):
+    """prefixless: ONE field without a length prefix (struct K0 { rest: RemainingBytes }); encoded with k = 0"""
+    ints = [1 if writable else 0, 0 if prefixless else len(lens)] + list(lens)
     for o in ops:
         ints.extend(o)
     return ints
@@ -130,6 +131,15 @@ def gen_cases(rng, tier):
     # 8 shared borrows, then exclusive refused, then released
     forced.append(_encode(True, [5, 6], [(3,)] * 8 + [(1,), (7,)] + [(4,)] * 8 + [(1,), (5, 1, 10, 2), (2,), (7,), (3,), (7,), (4,)]))
     forced.append(_encode(False, [5], [(1,), (3,), (7,), (4,)]))
+    # a body that can be empty (the account then holds exactly its discriminant): shrink to nothing, release, re-borrow,
+    # grow back; start empty; random histories
+    for n0 in (0, 1, 5, 300):
+        forced.append(_encode(True, [n0], [(1,), (6, 0, 0, n0), (7,), (2,), (1,), (7,), (5, 0, 7, 3), (7,), (2,), (3,), (7,), (4,),
+                                           (1,), (6, 0, 0, 7), (2,), (1,), (5, 0, MAX_INC, 1), (5, 0, 1, 1), (7,), (2,)], True))
+    for j in range(40 if tier == "quick" else 2000):
+        n0 = rng.choice([0, 0, 1, rng.range(0, 64), rng.range(0, 20000)])
+        ops = _ops_for(rng, 1, [n0], rng.range(5, 40), True, lw=0)
+        forced.append(_encode(True, [n0], ops, True))
     for j, ints in enumerate(forced):
         cases.append(("f%d" % j, ints))
     for j in range(n):
@@ -143,8 +153,14 @@ def gen_cases(rng, tier):
     return cases
 
 
+def _lw(ints):
+    return 0 if ints[1] == 0 else 4
+
+
 def _decode(ints):
     w, k = ints[0], ints[1]
+    if k == 0:
+        k = 1               # one prefix-less field
     lens = ints[2:2 + k]
     ops = []
     r = ints[2 + k:]
@@ -168,7 +184,7 @@ NAMES = {1: "borrow_mut", 2: "release_mut", 3: "borrow_shared", 4: "release_shar
 
 def describe(ints):
     w, lens, ops = _decode(ints)
-    return {"writable": bool(w), "initial_field_lengths": lens,
+    return {"writable": bool(w), "initial_field_lengths": lens, "length_prefix_width": _lw(ints),
             "ops": [[NAMES[o[0]]] + list(o[1:]) for o in ops]}
 
 
@@ -199,9 +215,10 @@ def predicate(ints, obs):
     if obs and obs[0] == "UNPARSEABLE":
         return "unparseable implementation output"
     w, lens, ops = _decode(ints)
+    lw = _lw(ints)
     per, trailer = _split_obs(obs, len(ops))
     fields = [[i + 1] * n for i, n in enumerate(lens)]
-    orig = DISC + sum(4 + len(f) for f in fields)
+    orig = DISC + sum(lw + len(f) for f in fields)
     excl = False
     nsh = 0
     for idx, o in enumerate(ops):
@@ -210,7 +227,7 @@ def predicate(ints, obs):
         ob = per[idx]
         if ob == [2]:
             return "step %d (%s): panic" % (idx, NAMES[o[0]])
-        total = DISC + sum(4 + len(f) for f in fields)
+        total = DISC + sum(lw + len(f) for f in fields)
         if o[0] == 1:
             free = (not excl) and nsh == 0
             if w and free and ob != [0]:
@@ -256,7 +273,7 @@ def predicate(ints, obs):
             elif ob[:1] != [1]:
                 return "step %d: invalid remove_range not an error: %s" % (idx, ob)
         elif o[0] == 7 and (excl or nsh > 0):
-            exp = [0, DISC + sum(4 + len(f) for f in fields)]
+            exp = [0, DISC + sum(lw + len(f) for f in fields)]
             for f in fields:
                 exp += [len(f), _checksum(f)]
             if ob != exp:
@@ -279,12 +296,13 @@ def nontrivial(ints, obs):
 def shrink(ints):
     w, lens, ops = _decode(ints)
     # drop ops
+    pl = _lw(ints) == 0
     for i in range(len(ops)):
-        yield _encode(w, lens, ops[:i] + ops[i + 1:])
+        yield _encode(w, lens, ops[:i] + ops[i + 1:], pl)
     # drop fields is not done (indices); reduce field lengths
     for i, n in enumerate(lens):
         if n > 0:
-            yield _encode(w, lens[:i] + [n // 2] + lens[i + 1:], ops)
+            yield _encode(w, lens[:i] + [n // 2] + lens[i + 1:], ops, pl)
 
 
 def distribution(cases, impl):
@@ -294,7 +312,7 @@ def distribution(cases, impl):
     sizes = Counter()
     for cid, ints in cases:
         w, lens, ops = _decode(ints)
-        tot = DISC + sum(4 + x for x in lens)
+        tot = DISC + sum(_lw(ints) + x for x in lens)
         sizes["<1K" if tot < 1024 else "<10K" if tot < 10240 else ">=10K"] += 1
         per, _ = _split_obs(impl.get(cid) or [], len(ops))
         for o, ob in zip(ops, per):
